@@ -46,19 +46,26 @@ theorem f80to64_eq_spec (se m : Nat) (hse : se < 2 ^ 16) : f80to64 se m = f80to6
         simp [this]
     · simp [hm, encode64]
   · simp only [hx, if_false, encode64]
-    have hexp : ((if se % 2 ^ 15 = 0 then 1 else se % 2 ^ 15 : Nat) : Int)
-        = (if se % 2 ^ 15 = 0 then 1 else Int.ofNat (se % 2 ^ 15)) := by
-      split <;> simp
-    rw [hexp]
-    by_cases hsg : se / 2 ^ 15 = 0
-    · simp [hsg]
-    · have h1 : se / 2 ^ 15 = 1 := by omega
-      have hlt := roundF64_pos_lt m ((if se % 2 ^ 15 = 0 then 1 else Int.ofNat (se % 2 ^ 15)) - 16383 - 63)
-      have hnot : ¬ roundF64 false m ((if se % 2 ^ 15 = 0 then 1 else Int.ofNat (se % 2 ^ 15)) - 16383 - 63) ≥ 2 ^ 63 := by omega
-      simp only [h1, ne_eq, Nat.succ_ne_zero, not_false_eq_true, if_true, hnot, if_false]
-      have : (1 % 2 == 1) = true := by decide
-      rw [this, roundF64_neg]
-
+    have hnegF : ∀ e : Int, negF64 (roundF64 false m e) = roundF64 true m e := by
+      intro e
+      have hlt := roundF64_pos_lt m e
+      have : ¬ roundF64 false m e ≥ 2 ^ 63 := by omega
+      simp only [negF64, this, if_false, roundF64_neg]
+    by_cases hz : se % 2 ^ 15 = 0
+    · simp only [hz, if_true]
+      by_cases hsg : se / 2 ^ 15 = 0
+      · simp [hsg]
+      · have h1 : se / 2 ^ 15 = 1 := by omega
+        have : (1 % 2 == 1) = true := by decide
+        simp only [h1, ne_eq, Nat.succ_ne_zero, not_false_eq_true, if_true, hnegF, this]
+        rfl
+    · simp only [hz, if_false]
+      by_cases hsg : se / 2 ^ 15 = 0
+      · simp [hsg]
+      · have h1 : se / 2 ^ 15 = 1 := by omega
+        have : (1 % 2 == 1) = true := by decide
+        simp only [h1, ne_eq, Nat.succ_ne_zero, not_false_eq_true, if_true, hnegF, this]
+        rfl
 
 /-! ### exactness of the rounding step on representable values -/
 
@@ -267,5 +274,149 @@ theorem widen32_exact (b : Nat) : (val64 (widen32 b)).same (val32 b) = true := b
         omega
       rw [roundF64_exact neg m e hm0 hm53 (by omega) (by omega)]
       exact same_norm53 neg m e (by omega)
+
+
+/-! ### fixed point for ALL integers: float64(n) / 2^f is ONE correct rounding of n / 2^f -/
+
+/-- the significand of u rounded to 53 bits (round to nearest even), hidden bit at 2^52; may carry to 2^53 -/
+def sig53 (u : Nat) : Nat := if u.log2 ≤ 52 then u <<< (52 - u.log2) else shiftRNE u (u.log2 - 52)
+
+theorem sig53_bounds (u : Nat) (hu0 : u ≠ 0) : 2 ^ 52 ≤ sig53 u ∧ sig53 u ≤ 2 ^ 53 := by
+  unfold sig53
+  by_cases hL : u.log2 ≤ 52
+  · simp only [hL, if_true]
+    have hu : u < 2 ^ 53 := by
+      have := @Nat.lt_log2_self u
+      have : 2 ^ (u.log2 + 1) ≤ 2 ^ 53 := Nat.pow_le_pow_right (by decide) (by omega)
+      omega
+    have := norm53_bounds u hu0 hu
+    unfold norm53 at this
+    omega
+  · simp only [hL, if_false]
+    have hk : 1 ≤ u.log2 - 52 := by omega
+    have h1 := Nat.log2_self_le hu0
+    have h2 := @Nat.lt_log2_self u
+    have hkpos : 0 < 2 ^ (u.log2 - 52) := Nat.pos_of_ne_zero (by simp)
+    have eL : 2 ^ u.log2 = 2 ^ 52 * 2 ^ (u.log2 - 52) := by rw [← Nat.pow_add]; congr 1; omega
+    have eL1 : 2 ^ (u.log2 + 1) = 2 ^ 53 * 2 ^ (u.log2 - 52) := by rw [← Nat.pow_add]; congr 1; omega
+    have hq1 : 2 ^ 52 ≤ u / 2 ^ (u.log2 - 52) := (Nat.le_div_iff_mul_le hkpos).mpr (by omega)
+    have hq2 : u / 2 ^ (u.log2 - 52) < 2 ^ 53 := (Nat.div_lt_iff_lt_mul hkpos).mpr (by omega)
+    unfold shiftRNE
+    have : ¬ (u.log2 - 52 = 0) := by omega
+    simp only [this, if_false, Nat.shiftRight_eq_div_pow]
+    split <;> omega
+
+/-- in the binary64 normal range the rounding step is: exponent field from e + ⌊log2 u⌋, significand
+    `sig53 u` — the significand does not depend on e -/
+theorem roundMag_normal (u : Nat) (e : Int) (hu0 : u ≠ 0)
+    (hlo : -1022 ≤ e + (u.log2 : Int)) (hhi : e + (u.log2 : Int) ≤ 1022) :
+    roundMag u e = (e + (u.log2 : Int) + 1022).toNat * 2 ^ 52 + sig53 u := by
+  obtain ⟨hs1, hs2⟩ := sig53_bounds u hu0
+  unfold roundMag
+  simp only [hu0, if_false]
+  have hq : max (e + (u.log2 : Int) - 52) (-1074) = e + (u.log2 : Int) - 52 := by omega
+  simp only [hq]
+  have hX : (e + (u.log2 : Int) - 52 + 1074).toNat = (e + (u.log2 : Int) + 1022).toNat := by congr 1; omega
+  rw [hX]
+  have hr : (if e ≥ e + (u.log2 : Int) - 52 then u <<< (e - (e + (u.log2 : Int) - 52)).toNat
+      else shiftRNE u (e + (u.log2 : Int) - 52 - e).toNat) = sig53 u := by
+    unfold sig53
+    by_cases hL : u.log2 ≤ 52
+    · have h1 : e ≥ e + (u.log2 : Int) - 52 := by omega
+      have h2 : (e - (e + (u.log2 : Int) - 52)).toNat = 52 - u.log2 := by omega
+      simp only [h1, if_true, h2, hL]
+    · have h1 : ¬ (e ≥ e + (u.log2 : Int) - 52) := by omega
+      have h2 : (e + (u.log2 : Int) - 52 - e).toNat = u.log2 - 52 := by omega
+      simp only [h1, if_false, h2, hL]
+  rw [hr]
+  generalize sig53 u = R at hs1 hs2 ⊢
+  generalize hXv : (e + (u.log2 : Int) + 1022).toNat = X
+  have hXle : X ≤ 2044 := by omega
+  have e52 : (2 : Nat) ^ 52 = 4503599627370496 := by decide
+  have e53 : (2 : Nat) ^ 53 = 9007199254740992 := by decide
+  rw [e52] at hs1 ⊢; rw [e53] at hs2
+  unfold clampInf
+  have : ¬ (X * 4503599627370496 + R ≥ 0x7FF0000000000000) := by omega
+  simp only [this, if_false]
+
+/-- decoding exponent field X (0..2044 before the hidden bit / carry is added) and a significand in [2^52, 2^53] -/
+theorem val64_fields (X R : Nat) (hX : X ≤ 2044) (h1 : 2 ^ 52 ≤ R) (h2 : R ≤ 2 ^ 53) :
+    val64 (X * 2 ^ 52 + R) = .fin false (if R = 2 ^ 53 then 2 ^ 52 else R) ((X : Int) - 1074 + (if R = 2 ^ 53 then 1 else 0)) := by
+  have e52 : (2 : Nat) ^ 52 = 4503599627370496 := by decide
+  have e53 : (2 : Nat) ^ 53 = 9007199254740992 := by decide
+  rw [e52] at h1 ⊢; rw [e53] at h2 ⊢
+  unfold val64 valIEEE
+  have p52 : (2 : Nat) ^ 52 = 4503599627370496 := by decide
+  have p11 : (2 : Nat) ^ 11 = 2048 := by decide
+  have p63 : (2 : Nat) ^ (52 + 11) = 9223372036854775808 := by decide
+  have p10 : ((2 : Int) ^ (11 - 1) - 1) = 1023 := by decide
+  simp only [p52, p11, p63, p10]
+  have hb : ((0 : Nat) == 1) = false := by decide
+  have hneg : (X * 4503599627370496 + R) / 9223372036854775808 % 2 = 0 := by omega
+  rw [hneg, hb]
+  by_cases hc : R = 9007199254740992
+  · subst hc
+    have hfrac : (X * 4503599627370496 + 9007199254740992) % 4503599627370496 = 0 := by omega
+    have hex : (X * 4503599627370496 + 9007199254740992) / 4503599627370496 % 2048 = X + 2 := by omega
+    rw [hfrac, hex]
+    have a1 : ¬ (X + 2 = 2048 - 1) := by omega
+    have a2 : ¬ (X + 2 = 0) := by omega
+    simp only [a1, a2, if_false, if_true, Nat.add_zero]
+    have hexp : ((X + 2 : Nat) : Int) - 1023 - ((52 : Nat) : Int) = (X : Int) - 1074 + 1 := by omega
+    rw [hexp]
+  · have hfrac : (X * 4503599627370496 + R) % 4503599627370496 = R - 4503599627370496 := by omega
+    have hex : (X * 4503599627370496 + R) / 4503599627370496 % 2048 = X + 1 := by omega
+    rw [hfrac, hex]
+    have a1 : ¬ (X + 1 = 2048 - 1) := by omega
+    have a2 : ¬ (X + 1 = 0) := by omega
+    simp only [a1, a2, if_false, hc]
+    have hr : 4503599627370496 + (R - 4503599627370496) = R := by omega
+    rw [hr]
+    have hexp : ((X + 1 : Nat) : Int) - 1023 - ((52 : Nat) : Int) = (X : Int) - 1074 + 0 := by omega
+    rw [hexp]
+
+theorem sig53_self (m : Nat) (h1 : 2 ^ 52 ≤ m) (h2 : m < 2 ^ 53) : sig53 m = m := by
+  have := log2_norm m h1 h2
+  simp [sig53, this]
+
+/-- `float64(n) / float64(1<<f)` (two steps in Go) is the binary64 nearest to the exact rational
+    n / 2^f, ties to even — for EVERY 64-bit n and every f < 64 -/
+theorem fpToF64_correctly_rounded (u f : Nat) (hu : u < 2 ^ 64) (hf : f < 64) :
+    fpToF64 u f = roundF64 false u (-(f : Int)) := by
+  have hf' : ¬ f ≥ 64 := by omega
+  by_cases hu0 : u = 0
+  · subst hu0
+    have h0 : u64ToF64 0 = 0 := by simp [u64ToF64, roundF64, roundMag]
+    simp only [fpToF64, hf', if_false, h0, val64_signed_zero.1]
+    simp [roundF64, roundMag]
+  · have hL : u.log2 < 64 := (Nat.log2_lt hu0).mpr hu
+    obtain ⟨hs1, hs2⟩ := sig53_bounds u hu0
+    have hA := roundMag_normal u 0 hu0 (by omega) (by omega)
+    have hB := roundMag_normal u (-(f : Int)) hu0 (by omega) (by omega)
+    have hX0 : (0 + (u.log2 : Int) + 1022).toNat = u.log2 + 1022 := by omega
+    have hXf : (-(f : Int) + (u.log2 : Int) + 1022).toNat = u.log2 + 1022 - f := by omega
+    rw [hX0] at hA; rw [hXf] at hB
+    have hdec := val64_fields (u.log2 + 1022) (sig53 u) (by omega) hs1 hs2
+    simp only [fpToF64, hf', if_false, u64ToF64, roundF64, Bool.false_eq_true, Nat.zero_add, hA, hdec, hB]
+    by_cases hc : sig53 u = 2 ^ 53
+    · simp only [hc, if_true]
+      have h52 : (2:Nat) ^ 52 ≠ 0 := by simp
+      have hl := log2_norm (2 ^ 52) (Nat.le_refl _) (by decide)
+      have hC := roundMag_normal (2 ^ 52) (((u.log2 + 1022 : Nat) : Int) - 1074 + 1 - (f : Int)) h52 (by rw [hl]; omega) (by rw [hl]; omega)
+      rw [hC, hl, sig53_self _ (Nat.le_refl _) (by decide)]
+      have hXc : (((u.log2 + 1022 : Nat) : Int) - 1074 + 1 - (f : Int) + ((52 : Nat) : Int) + 1022).toNat = u.log2 + 1022 - f + 1 := by omega
+      rw [hXc]
+      have e53 : (2 : Nat) ^ 53 = 2 ^ 52 + 2 ^ 52 := by decide
+      rw [e53]; omega
+    · have hlt : sig53 u < 2 ^ 53 := by omega
+      simp only [hc, if_false, Int.add_zero]
+      have hr0 : sig53 u ≠ 0 := by
+        have : 0 < 2 ^ 52 := Nat.pos_of_ne_zero (by simp)
+        omega
+      have hl := log2_norm (sig53 u) hs1 hlt
+      have hC := roundMag_normal (sig53 u) (((u.log2 + 1022 : Nat) : Int) - 1074 - (f : Int)) hr0 (by rw [hl]; omega) (by rw [hl]; omega)
+      rw [hC, hl, sig53_self _ hs1 hlt]
+      have hXc : (((u.log2 + 1022 : Nat) : Int) - 1074 - (f : Int) + ((52 : Nat) : Int) + 1022).toNat = u.log2 + 1022 - f := by omega
+      rw [hXc]
 
 end Proofs.C02
